@@ -371,10 +371,22 @@ func TestC26(t *testing.T) {
 		start := rapid.SampledFrom([]uint32{0, 1, 1 << 31, ^uint32(0) - 1, ^uint32(0)}).Draw(rt, "startSeq")
 		np := rapid.IntRange(1, 5).Draw(rt, "npackets")
 		var payloads [][]byte
+		prevMax := 0
 		for i := 0; i < np; i++ {
 			n, _ := gen.Len(rt, "plen", 200, 8, 16)
+			switch rapid.IntRange(0, 11).Draw(rt, "plenClass") {
+			case 0: // around an internal buffer constant (256: chacha buf, 1024: CBC packetData)
+				n = rapid.SampledFrom([]int{256, 1024, 1024}).Draw(rt, "bufConst") - rapid.IntRange(0, 100).Draw(rt, "bufOff")
+			case 1, 2: // just past the largest packet this reader has seen
+				if prevMax > 0 {
+					n = prevMax + rapid.IntRange(1, 4).Draw(rt, "stairK")*rapid.SampledFrom([]int{8, 16}).Draw(rt, "stairB")
+				}
+			}
 			if n == 0 {
 				n = 1
+			}
+			if n > prevMax {
+				prevMax = n
 			}
 			payloads = append(payloads, d.bytes(n))
 		}
@@ -596,6 +608,40 @@ func TestC26(t *testing.T) {
 			nCraft++
 		}
 	}
+	// ---- buffer-state histories: untampered, then with the last packet's MAC hit ------
+	hists, hnames := bufferHistories()
+	nHist := 0
+	for mi, m := range all {
+		if !ev.Mine(mi) {
+			continue
+		}
+		d := newDRBG(uint64(7000 + mi))
+		k := c26MakeKeys(m, d)
+		for hi, h := range hists {
+			var payloads [][]byte
+			for _, n := range h {
+				payloads = append(payloads, d.bytes(n))
+			}
+			s, err := c26Write(m, k, uint32(hi), payloads, uint64(hi))
+			c26Check(c, t, err)
+			orig := s.wire()
+			_, err = c26Read(s, orig, 0, -1)
+			if err != nil {
+				err = fmt.Errorf("untampered history %s %v: %v", hnames[hi], h, err)
+			}
+			c26Check(c, t, err)
+			mut := cp(orig)
+			mut[len(mut)-1] ^= 0x40
+			_, err = c26Read(s, mut, 0, len(h)-1)
+			if err != nil {
+				err = fmt.Errorf("history %s %v with the last byte flipped: %v", hnames[hi], h, err)
+			}
+			c26Check(c, t, err)
+			nHist += 2
+			c.Case(m.Cipher != "none", fmt.Sprintf("%v|history|%s|%d", m, hnames[hi], h[0]), "enum:history-"+hnames[hi])
+		}
+	}
+	c.Exhaustive("buffer-state histories per mode (first packets around the 1024/256-byte initial buffers, staircases past the previous maximum), untampered and with the final MAC byte flipped", nHist)
 	c.Exhaustive("every single-bit flip in the first packet, per mode (52 incl. none) x payload sizes", nFlip)
 	c.Exhaustive("truncation at every offset of a two-packet stream, per mode", nTrunc)
 	c.Exhaustive("every packet deletion/replay/transposition/substitution of a four-packet stream, per mode", nPkt)
